@@ -16,6 +16,8 @@ import (
 	"go/constant"
 	"go/token"
 	"go/types"
+	"hash/fnv"
+	"math/big"
 	"sort"
 	"strings"
 
@@ -84,14 +86,17 @@ type piter struct {
 }
 
 type pheap struct {
-	lists  map[int64][]pval // nil entry: content unknown
-	poison map[int64]bool   // lists whose content was known and forgotten
-	objs   map[int64]*pobj
-	maps   map[int64]*pmap
-	iters  map[int64]*piter
-	alias  map[int64][]palias // re-sliced views: element j of the key is element j+delta of the other list
-	cells  map[int64]bool     // one-element lists standing for a variable whose address is taken (captured by a closure)
-	next   int64
+	lists      map[int64][]pval // nil entry: content unknown
+	poison     map[int64]bool   // lists whose content was known and forgotten
+	objs       map[int64]*pobj
+	maps       map[int64]*pmap
+	iters      map[int64]*piter
+	alias      map[int64][]palias // re-sliced views: element j of the key is element j+delta of the other list
+	cells      map[int64]bool     // one-element lists standing for a variable whose address is taken (captured by a closure)
+	lazyT      map[int64]bool     // content lists of tensors with a pending (lazy) transposition: held in logical order, the raw order is not known
+	spareCap   map[int64]bool     // lists that may have capacity beyond their length (results of append)
+	appendedTo map[int64]int64    // list -> the result of an earlier append to it
+	next       int64
 }
 
 type palias struct {
@@ -220,6 +225,24 @@ func (h *pheap) clone() *pheap {
 		objs: make(map[int64]*pobj, len(h.objs)), maps: make(map[int64]*pmap, len(h.maps)), iters: make(map[int64]*piter, len(h.iters))}
 	for k := range h.poison {
 		n.poison[k] = true
+	}
+	if len(h.spareCap) > 0 {
+		n.spareCap = make(map[int64]bool, len(h.spareCap))
+		for k := range h.spareCap {
+			n.spareCap[k] = true
+		}
+	}
+	if len(h.appendedTo) > 0 {
+		n.appendedTo = make(map[int64]int64, len(h.appendedTo))
+		for k, v := range h.appendedTo {
+			n.appendedTo[k] = v
+		}
+	}
+	if len(h.lazyT) > 0 {
+		n.lazyT = make(map[int64]bool, len(h.lazyT))
+		for k := range h.lazyT {
+			n.lazyT[k] = true
+		}
 	}
 	if len(h.cells) > 0 {
 		n.cells = make(map[int64]bool, len(h.cells))
@@ -536,6 +559,22 @@ outer:
 						if b.i != 0 {
 							fr.env[x] = pval{k: pInt, i: a.i % b.i, dep: dep, s: ty}
 						}
+					case token.OR:
+						fr.env[x] = pval{k: pInt, i: a.i | b.i, dep: dep, s: ty}
+					case token.AND:
+						fr.env[x] = pval{k: pInt, i: a.i & b.i, dep: dep, s: ty}
+					case token.XOR:
+						fr.env[x] = pval{k: pInt, i: a.i ^ b.i, dep: dep, s: ty}
+					case token.AND_NOT:
+						fr.env[x] = pval{k: pInt, i: a.i &^ b.i, dep: dep, s: ty}
+					case token.SHL:
+						if b.i >= 0 && b.i < 31 && a.i >= 0 && a.i < 1<<31 {
+							fr.env[x] = pval{k: pInt, i: a.i << uint(b.i), dep: dep, s: ty}
+						}
+					case token.SHR:
+						if b.i >= 0 && b.i < 63 && a.i >= 0 {
+							fr.env[x] = pval{k: pInt, i: a.i >> uint(b.i), dep: dep, s: ty}
+						}
 					default:
 						if r, ok := cmpInt(x.Op, a.i, b.i); ok {
 							fr.env[x] = pval{k: pBool, b: r, dep: dep}
@@ -563,6 +602,28 @@ outer:
 					fr.env[x] = combineElems(op, nm(a), nm(b))
 				case a.k == pStr && b.k == pStr && (x.Op == token.EQL || x.Op == token.NEQ):
 					fr.env[x] = pval{k: pBool, b: (a.s == b.s) == (x.Op == token.EQL)}
+				case (a.k == pFloat || b.k == pFloat) && (a.k == pFloat || a.k == pInt) && (b.k == pFloat || b.k == pInt) && smallIntFloat(floatText(a)) && smallIntFloat(floatText(b)) && (x.Op == token.ADD || x.Op == token.SUB || x.Op == token.MUL || x.Op == token.LSS || x.Op == token.LEQ || x.Op == token.GTR || x.Op == token.GEQ):
+					// floating point constants with small integral values: sums, differences, products and orderings
+					// are exact in every float type
+					av, _ := new(big.Rat).SetString(floatText(a))
+					bv, _ := new(big.Rat).SetString(floatText(b))
+					r := new(big.Rat)
+					switch x.Op {
+					case token.ADD:
+						r.Add(av, bv)
+					case token.SUB:
+						r.Sub(av, bv)
+					case token.MUL:
+						r.Mul(av, bv)
+					default:
+						cmp := av.Cmp(bv)
+						res := map[token.Token]bool{token.LSS: cmp < 0, token.LEQ: cmp <= 0, token.GTR: cmp > 0, token.GEQ: cmp >= 0}[x.Op]
+						fr.env[x] = pval{k: pBool, b: res, dep: a.dep || b.dep}
+						r = nil
+					}
+					if r != nil && r.IsInt() && r.Num().IsInt64() && r.Num().Int64() > -(1<<20) && r.Num().Int64() < 1<<20 {
+						fr.env[x] = pval{k: pFloat, s: r.Num().String(), dep: a.dep || b.dep}
+					}
 				case a.k == pFloat && b.k == pFloat && (x.Op == token.EQL || x.Op == token.NEQ):
 					fr.env[x] = pval{k: pBool, b: (a.s == b.s) == (x.Op == token.EQL)}
 				case (a.k == pObj || a.k == pAbs) && a.k == b.k && (x.Op == token.EQL || x.Op == token.NEQ):
@@ -637,6 +698,14 @@ outer:
 							}
 						}
 						continue
+					case pList:
+						// *p of an array: the array value, a private copy of its elements
+						if _, isArr := x.Type().Underlying().(*types.Array); isArr {
+							if l := fr.heap.lists[a.i]; l != nil {
+								fr.env[x] = fr.heap.alloc(append([]pval{}, l...))
+							}
+							continue
+						}
 					case pElemAddr:
 						if l := fr.heap.lists[a.i]; l != nil && a.j >= 0 && a.j < int64(len(l)) && l[a.j].k != pUnknown {
 							fr.env[x] = l[a.j]
@@ -742,7 +811,11 @@ outer:
 								l[i] = z
 							}
 						}
-						if isIntType(st.Elem()) || p.objects {
+						isBool := false
+						if bt, ok := st.Elem().Underlying().(*types.Basic); ok && bt.Kind() == types.Bool {
+							isBool = true
+						}
+						if isIntType(st.Elem()) || isBool || p.objects {
 							fr.env[x] = fr.heap.alloc(l)
 						}
 					}
@@ -807,6 +880,13 @@ outer:
 				}
 			case *ssa.Index:
 				delete(fr.env, x)
+				if _, isArr := x.X.Type().Underlying().(*types.Array); isArr {
+					if av, iv := p.val(fr, x.X), p.val(fr, x.Index); av.k == pList && iv.k == pInt {
+						if l := fr.heap.lists[av.i]; l != nil && iv.i >= 0 && iv.i < int64(len(l)) && l[iv.i].k != pUnknown {
+							fr.env[x] = l[iv.i]
+						}
+					}
+				}
 			case *ssa.Store:
 				if g, isG := x.Addr.(*ssa.Global); isG && p.objects && p.inInit {
 					if p.globals == nil {
@@ -835,6 +915,17 @@ outer:
 				case pElemAddr:
 					if l := fr.heap.lists[ad.i]; l != nil && ad.j < int64(len(l)) {
 						fr.heap.storeElem(ad.i, ad.j, p.val(fr, x.Val))
+					}
+				case pList:
+					// *p = array value: the elements are copied
+					if _, isArr := x.Val.Type().Underlying().(*types.Array); isArr {
+						if v := p.val(fr, x.Val); v.k == pList && fr.heap.lists[v.i] != nil && fr.heap.lists[ad.i] != nil && len(fr.heap.lists[v.i]) == len(fr.heap.lists[ad.i]) {
+							copy(fr.heap.lists[ad.i], fr.heap.lists[v.i])
+						} else {
+							for i := range fr.heap.lists[ad.i] {
+								fr.heap.lists[ad.i][i] = pval{}
+							}
+						}
 					}
 				default:
 					if fa, ok := x.Addr.(*ssa.FieldAddr); ok && p.val(fr, fa.X).k == pRecv {
@@ -1359,8 +1450,87 @@ func (p *pinterp) call(fn *ssa.Function, fr *pframe, x *ssa.Call, depth int) {
 				case pShape:
 					lb, okB = p.shapeList(b2.i)
 				}
+				if okA && okB && a.k == pList && len(lb) > 0 {
+					// append to a slice that is a proper prefix view of a longer list writes into that list (Go
+					// appends in place while the capacity lasts): s = append(s[:k], v) overwrites s[k]
+					type reach struct{ id, d int64 }
+					seenL := map[int64]bool{a.i: true}
+					work := []reach{{a.i, 0}}
+					var host *reach
+					ambiguous := false
+					for len(work) > 0 {
+						w := work[len(work)-1]
+						work = work[:len(work)-1]
+						for _, e := range fr.heap.alias[w.id] {
+							if e.idx != nil || seenL[e.other] {
+								continue
+							}
+							seenL[e.other] = true
+							r := reach{e.other, w.d + e.delta}
+							work = append(work, r)
+							// the list that shows the most storage behind the start of a
+							if ol := fr.heap.lists[r.id]; ol != nil && r.d >= 0 {
+								if host == nil || int64(len(ol))-r.d > int64(len(fr.heap.lists[host.id]))-host.d {
+									hr := r
+									host = &hr
+								}
+							}
+						}
+					}
+					if host != nil {
+						visible := int64(len(fr.heap.lists[host.id])) - host.d
+						switch {
+						case int64(len(la)+len(lb)) <= visible:
+						case int64(len(la)) < visible:
+							ambiguous = true // part of the visible list is overwritten only if the capacity lasts
+							host = nil
+						default:
+							host = nil
+						}
+					}
+					if ambiguous {
+						fr.heap.forget(a.i)
+						break
+					}
+					if host != nil {
+						vals := append([]pval{}, lb...)
+						end := host.d + int64(len(la))
+						for i, v := range vals {
+							fr.heap.storeElem(host.id, end+int64(i), v)
+						}
+						nv := fr.heap.alloc(append(append([]pval{}, la...), vals...))
+						if fr.heap.alias == nil {
+							fr.heap.alias = map[int64][]palias{}
+						}
+						fr.heap.alias[nv.i] = append(append([]palias{}, fr.heap.alias[nv.i]...), palias{other: host.id, delta: host.d})
+						fr.heap.alias[host.id] = append(append([]palias{}, fr.heap.alias[host.id]...), palias{other: nv.i, delta: -host.d})
+						fr.env[x] = nv
+						break
+					}
+				}
 				if okA && okB {
-					fr.env[x] = fr.heap.alloc(append(append([]pval{}, la...), lb...))
+					// Go's append writes into the spare capacity of its first argument when there is some: two
+					// appends to the same slice that may have spare capacity (itself the result of an append) can
+					// share storage - the second overwrites what the first appended. Not modelled: the contents of
+					// both results are given up.
+					if a.k == pList && len(lb) > 0 && fr.heap.spareCap[a.i] {
+						if prev, again := fr.heap.appendedTo[a.i]; again {
+							fr.heap.forget(prev)
+							break
+						}
+					}
+					nl := fr.heap.alloc(append(append([]pval{}, la...), lb...))
+					fr.env[x] = nl
+					if fr.heap.spareCap == nil {
+						fr.heap.spareCap = map[int64]bool{}
+					}
+					if fr.heap.appendedTo == nil {
+						fr.heap.appendedTo = map[int64]int64{}
+					}
+					fr.heap.spareCap[nl.i] = true
+					if a.k == pList && len(lb) > 0 {
+						fr.heap.appendedTo[a.i] = nl.i
+					}
 				}
 			}
 		case "copy":
@@ -1531,8 +1701,42 @@ func (p *pinterp) call(fn *ssa.Function, fr *pframe, x *ssa.Call, depth int) {
 	if recv != nil {
 		rv := p.val(fr, recv)
 		if rv.k == pShaped {
+			// a pending lazy transposition: only what reads the tensor logically is followed
+			if rv.m != 0 && fr.heap.lazyT[rv.m] {
+				switch name {
+				case "Shape", "Dtype", "Dims", "Size", "T":
+				default:
+					return
+				}
+			}
 			// the tensor's own (live) shape slice
 			switch name {
+			case "T":
+				// t.T() of a matrix: the logical view is transposed in place, the data stay where they are. The content
+				// list is kept in logical order from here on and marked: readers of the raw backing are not followed.
+				if p.content && rv.m != 0 && (len(cc.Args) == 0 || (len(cc.Args) == 1 && cc.IsInvoke() && p.val(fr, cc.Args[0]).k == pNil) || (len(cc.Args) == 2 && !cc.IsInvoke() && p.val(fr, cc.Args[1]).k == pNil)) {
+					sh, cont := fr.heap.lists[rv.j], fr.heap.lists[rv.m]
+					if len(sh) == 2 && cont != nil && sh[0].k == pInt && sh[1].k == pInt && int64(len(cont)) == sh[0].i*sh[1].i && len(fr.heap.alias[rv.m]) == 0 {
+						r, cN := sh[0].i, sh[1].i
+						nc := make([]pval, len(cont))
+						for i := int64(0); i < r; i++ {
+							for j := int64(0); j < cN; j++ {
+								nc[j*r+i] = cont[i*cN+j]
+							}
+						}
+						copy(cont, nc)
+						sh[0], sh[1] = sh[1], sh[0]
+						if fr.heap.lazyT == nil {
+							fr.heap.lazyT = map[int64]bool{}
+						}
+						if fr.heap.lazyT[rv.m] {
+							delete(fr.heap.lazyT, rv.m) // transposed back
+						} else {
+							fr.heap.lazyT[rv.m] = true
+						}
+						fr.env[x] = pval{k: pNil}
+					}
+				}
 			case "Clone":
 				if l := fr.heap.lists[rv.j]; l != nil {
 					nv := pval{k: pShaped, i: rv.i, j: fr.heap.alloc(append([]pval{}, l...)).i}
@@ -2344,6 +2548,15 @@ func (p *pinterp) call(fn *ssa.Function, fr *pframe, x *ssa.Call, depth int) {
 		return
 	}
 	if fnPkgPath(sc) == pkgTensor && sc.Signature.Recv() == nil {
+		// an operand with a pending lazy transposition: only the matrix product (which reads its operands logically)
+		// is followed
+		if sc.Name() != "MatMul" && len(fr.heap.lazyT) > 0 {
+			for _, a := range cc.Args {
+				if v := p.val(fr, a); v.k == pShaped && v.m != 0 && fr.heap.lazyT[v.m] {
+					return
+				}
+			}
+		}
 		switch sc.Name() {
 		case "Concat":
 			// Concat(axis, t, ts...) refuses an axis outside [0, rank) (dense_matop.go: "Axis is out of bounds")
@@ -2472,13 +2685,177 @@ func (p *pinterp) call(fn *ssa.Function, fr *pframe, x *ssa.Call, depth int) {
 					}
 				}
 			}
+		case "Neg", "Exp", "Div":
+			// element-wise functions of the tensor library on named elements: Neg folds into the normal form, Exp and
+			// Div become opaque atoms; with UseUnsafe() the result is written into the (first) tensor operand
+			if p.content && len(cc.Args) >= 1 {
+				nOps := 1
+				if sc.Name() == "Div" {
+					nOps = 2
+				}
+				if len(cc.Args) < nOps {
+					break
+				}
+				unsafe, plain := false, true
+				if len(cc.Args) > nOps {
+					o := p.val(fr, cc.Args[nOps])
+					plain = o.k == pNil || o.k == pList && len(fr.heap.lists[o.i]) == 0
+					if o.k == pList {
+						if ol := fr.heap.lists[o.i]; len(ol) == 1 && ol[0].k == pReuseOpt && ol[0].s == "unsafe" && ol[0].m == 0 {
+							plain, unsafe = true, true
+						}
+					}
+				}
+				if !plain {
+					break
+				}
+				scalarName := func(v pval) (pval, bool) {
+					switch v.k {
+					case pStr:
+						return v, true
+					case pFloat:
+						return pval{k: pStr, s: "f" + v.s}, true
+					case pInt:
+						return pval{k: pStr, s: fmt.Sprintf("f%d", v.i)}, true
+					}
+					return v, false
+				}
+				var dst pval
+				var out []pval
+				switch sc.Name() {
+				case "Neg", "Exp":
+					t := p.val(fr, cc.Args[0])
+					if t.k != pShaped || t.m == 0 || fr.heap.lists[t.m] == nil || fr.heap.lists[t.j] == nil {
+						break
+					}
+					dst = t
+					for _, e := range fr.heap.lists[t.m] {
+						if sc.Name() == "Neg" {
+							out = append(out, combineElems("Sub", pval{k: pStr, s: "0"}, e))
+						} else {
+							en, ok := scalarName(e)
+							if !ok {
+								out = nil
+								break
+							}
+							out = append(out, atomElem("Exp", en))
+						}
+					}
+				case "Div":
+					a, b := p.val(fr, cc.Args[0]), p.val(fr, cc.Args[1])
+					an, aScalar := scalarName(a)
+					bn, bScalar := scalarName(b)
+					switch {
+					case aScalar && b.k == pShaped && b.m != 0 && fr.heap.lists[b.m] != nil:
+						dst = b
+						for _, e := range fr.heap.lists[b.m] {
+							en, ok := scalarName(e)
+							if !ok {
+								out = nil
+								break
+							}
+							out = append(out, atomElem("Div", pval{k: pStr, s: an.s + "|" + en.s}))
+						}
+					case bScalar && a.k == pShaped && a.m != 0 && fr.heap.lists[a.m] != nil:
+						dst = a
+						for _, e := range fr.heap.lists[a.m] {
+							en, ok := scalarName(e)
+							if !ok {
+								out = nil
+								break
+							}
+							out = append(out, atomElem("Div", pval{k: pStr, s: en.s + "|" + bn.s}))
+						}
+					case a.k == pShaped && b.k == pShaped && a.m != 0 && b.m != 0:
+						ca, cb := fr.heap.lists[a.m], fr.heap.lists[b.m]
+						if ca != nil && cb != nil && len(ca) == len(cb) && sameInts(fr.heap.lists[a.j], fr.heap.lists[b.j]) {
+							dst = a
+							for k := range ca {
+								x1, ok1 := scalarName(ca[k])
+								x2, ok2 := scalarName(cb[k])
+								if !ok1 || !ok2 {
+									out = nil
+									break
+								}
+								out = append(out, atomElem("Div", pval{k: pStr, s: x1.s + "|" + x2.s}))
+							}
+						}
+					}
+				}
+				if out == nil || dst.k != pShaped || len(out) != len(fr.heap.lists[dst.m]) || fr.heap.lazyT[dst.m] {
+					break
+				}
+				for _, e := range out {
+					if e.k != pStr {
+						out = nil
+					}
+				}
+				if out == nil {
+					break
+				}
+				if unsafe {
+					for k, v := range out {
+						fr.heap.storeElem(dst.m, int64(k), v)
+					}
+					fr.tuples[x] = []pval{dst, {k: pNil}}
+				} else {
+					fr.tuples[x] = []pval{{k: pShaped, i: dst.i, j: fr.heap.alloc(append([]pval{}, fr.heap.lists[dst.j]...)).i, m: fr.heap.alloc(out).i}, {k: pNil}}
+				}
+			}
 		case "Mul", "Add", "Sub":
 			if p.content && len(cc.Args) >= 2 {
 				a, b := p.val(fr, cc.Args[0]), p.val(fr, cc.Args[1])
-				plain := true // no WithReuse / UseUnsafe / WithIncr
+				plain := true   // no WithReuse / WithIncr
+				unsafe := false // UseUnsafe(): the result is written into the first tensor operand, which is returned
 				if len(cc.Args) >= 3 {
 					o := p.val(fr, cc.Args[2])
 					plain = o.k == pNil || o.k == pList && len(fr.heap.lists[o.i]) == 0
+					if o.k == pList {
+						if ol := fr.heap.lists[o.i]; len(ol) == 1 && ol[0].k == pReuseOpt && ol[0].s == "unsafe" && ol[0].m == 0 {
+							plain, unsafe = true, true
+						}
+					}
+				}
+				if unsafe {
+					// settle the result first (as for the plain form), then move it into the operand
+					defer func() {
+						t, ok := fr.tuples[x]
+						if !ok || len(t) != 2 || t[0].k != pShaped || t[1].k != pNil {
+							return
+						}
+						dst := a
+						if dst.k != pShaped {
+							dst = b
+						}
+						dl, rl := fr.heap.lists[dst.m], fr.heap.lists[t[0].m]
+						if dst.k != pShaped || dst.m == 0 || dl == nil || rl == nil || len(dl) != len(rl) || fr.heap.lazyT[dst.m] {
+							delete(fr.tuples, x)
+							return
+						}
+						for k, v := range append([]pval{}, rl...) {
+							fr.heap.storeElem(dst.m, int64(k), v)
+						}
+						fr.tuples[x] = []pval{dst, {k: pNil}}
+					}()
+				}
+				if sc.Name() != "Mul" && plain && ((a.k == pShaped && a.m != 0 && (b.k == pStr || b.k == pFloat || b.k == pInt)) || (b.k == pShaped && b.m != 0 && (a.k == pStr || a.k == pFloat || a.k == pInt))) {
+					// a tensor plus / minus a Go scalar (in either order): element by element
+					t, scal, tensorFirst := a, b, true
+					if a.k != pShaped {
+						t, scal, tensorFirst = b, a, false
+					}
+					ct, st := fr.heap.lists[t.m], fr.heap.lists[t.j]
+					if ct != nil && st != nil {
+						out := make([]pval, len(ct))
+						for k := range ct {
+							if tensorFirst {
+								out[k] = combineElems(sc.Name(), ct[k], scal)
+							} else {
+								out[k] = combineElems(sc.Name(), scal, ct[k])
+							}
+						}
+						fr.tuples[x] = []pval{{k: pShaped, i: t.i, j: fr.heap.alloc(append([]pval{}, st...)).i, m: fr.heap.alloc(out).i}, {k: pNil}}
+					}
 				}
 				if scal, t := b, a; plain && sc.Name() == "Mul" && ((a.k == pShaped && a.m != 0 && (b.k == pStr || b.k == pFloat)) || (b.k == pShaped && b.m != 0 && (a.k == pStr || a.k == pFloat))) {
 					// a tensor times a Go scalar: every element times that scalar (the scalar 1 leaves them as they are)
@@ -2751,6 +3128,10 @@ func (p *pinterp) call(fn *ssa.Function, fr *pframe, x *ssa.Call, depth int) {
 						}
 					}
 				}
+			}
+		case "UseUnsafe":
+			if p.content && len(cc.Args) == 0 {
+				fr.env[x] = pval{k: pReuseOpt, s: "unsafe"} // the operation writes its result into its first tensor operand
 			}
 		case "WithReuse":
 			if p.content && len(cc.Args) == 1 {
@@ -3429,6 +3810,15 @@ func (pc *pcover) uncovered(c *Ctx) []string {
 			if c.errorPassingBlock(b) {
 				continue
 			}
+			if c.deadForEveryCaller(fn, b) {
+				continue
+			}
+			if c.zeroExtentGuard(b) {
+				continue
+			}
+			if unsignedBelowZero(b) {
+				continue
+			}
 			// a block all of whose predecessors are uncovered and excused is excused as well (the tail of an error path)
 			allExcused := len(b.Preds) > 0
 			for _, pr := range b.Preds {
@@ -3456,6 +3846,9 @@ func (pc *pcover) uncovered(c *Ctx) []string {
 // errorPassingBlock: the block is entered only on the failing edge of a nil test of an error (or of a comma-ok
 // flag) and every path from it ends in an error return.
 func (c *Ctx) errorPassingBlock(b *ssa.BasicBlock) bool {
+	if len(b.Preds) == 1 && c.siblingNilReturn(b) {
+		return true
+	}
 	if len(b.Preds) != 1 || !c.blockRejects(b, 0) {
 		return false
 	}
@@ -3475,6 +3868,18 @@ func (c *Ctx) errorPassingBlock(b *ssa.BasicBlock) bool {
 	if bo, ok := cond.(*ssa.BinOp); ok && (bo.Op == token.NEQ || bo.Op == token.EQL) {
 		if (isNilConst(bo.X) && isErrorType(bo.Y.Type())) || (isNilConst(bo.Y) && isErrorType(bo.X.Type())) {
 			return true
+		}
+		// the failure of a call shown by its other result being nil (f, err := get(..); if f == nil { return nil, err })
+		other := bo.X
+		if isNilConst(bo.X) {
+			other = bo.Y
+		}
+		if ex, ok := other.(*ssa.Extract); ok && (isNilConst(bo.X) || isNilConst(bo.Y)) {
+			if call, ok := ex.Tuple.(*ssa.Call); ok {
+				if sig, ok := call.Common().Value.Type().Underlying().(*types.Signature); ok && !call.Common().IsInvoke() && errResultIndex(sig) >= 0 && errResultIndex(sig) != ex.Index {
+					return true
+				}
+			}
 		}
 	}
 	if ex, ok := cond.(*ssa.Extract); ok {
@@ -3501,6 +3906,23 @@ func sameInts(a, b []pval) bool {
 
 // combineElems: element expressions are sums of products of leaf names, kept sorted ("w1*x3+w2*x4"); "0" is zero.
 func combineElems(op string, a, b pval) pval {
+	// numeric constants among named elements take the names of the float constants
+	nm := func(v pval) pval {
+		switch v.k {
+		case pInt:
+			if v.i == 0 {
+				return pval{k: pStr, s: "0"}
+			}
+			return pval{k: pStr, s: fmt.Sprintf("f%d", v.i)}
+		case pFloat:
+			if v.s == "0" {
+				return pval{k: pStr, s: "0"}
+			}
+			return pval{k: pStr, s: "f" + v.s}
+		}
+		return v
+	}
+	a, b = nm(a), nm(b)
 	if a.k != pStr || b.k != pStr {
 		return pval{k: pPoison}
 	}
@@ -3517,28 +3939,91 @@ func combineElems(op string, a, b pval) pval {
 		sort.Strings(t)
 		return pval{k: pStr, s: strings.Join(t, "+")}
 	}
+	// a term is an optional sign and a product of sorted factors; the factor f1 (the float constant one) is dropped
+	split := func(term string) (neg bool, factors []string) {
+		for strings.HasPrefix(term, "-") {
+			neg, term = !neg, term[1:]
+		}
+		for _, f := range strings.Split(term, "*") {
+			for strings.HasPrefix(f, "-") {
+				neg, f = !neg, f[1:]
+			}
+			if f != "f1" && f != "" {
+				factors = append(factors, f)
+			}
+		}
+		return neg, factors
+	}
+	build := func(neg bool, factors []string) string {
+		if len(factors) == 0 {
+			factors = []string{"f1"}
+		}
+		sort.Strings(factors)
+		t := strings.Join(factors, "*")
+		if neg {
+			t = "-" + t
+		}
+		return t
+	}
+	norm := func(ts []string) []string {
+		out := make([]string, 0, len(ts))
+		for _, x := range ts {
+			n, f := split(x)
+			out = append(out, build(n, f))
+		}
+		return out
+	}
 	switch op {
 	case "Add":
-		return join(append(append([]string{}, terms(a.s)...), terms(b.s)...))
+		return join(norm(append(append([]string{}, terms(a.s)...), terms(b.s)...)))
 	case "Sub":
-		var t []string
-		t = append(t, terms(a.s)...)
+		t := norm(terms(a.s))
 		for _, x := range terms(b.s) {
-			t = append(t, "-"+x)
+			n, f := split(x)
+			t = append(t, build(!n, f))
 		}
 		return join(t)
 	case "Mul":
 		var t []string
 		for _, x := range terms(a.s) {
+			nx, fx := split(x)
 			for _, y := range terms(b.s) {
-				f := append(strings.Split(x, "*"), strings.Split(y, "*")...)
-				sort.Strings(f)
-				t = append(t, strings.Join(f, "*"))
+				ny, fy := split(y)
+				t = append(t, build(nx != ny, append(append([]string{}, fx...), fy...)))
 			}
 		}
 		return join(t)
 	}
 	return pval{k: pPoison}
+}
+
+// atomElem: the application of a named function to an element expression, as an opaque element name (a hash of the
+// canonical argument, so that equal arguments give equal atoms and the name holds no '+' or '*'). atomText renders
+// atoms back for messages.
+var atomInner = map[string]string{}
+
+func atomElem(fn string, arg pval) pval {
+	if arg.k != pStr {
+		return pval{k: pPoison}
+	}
+	h := fnv.New64a()
+	h.Write([]byte(arg.s))
+	name := fmt.Sprintf("%s{%x}", fn, h.Sum64())
+	atomInner[name] = arg.s
+	return pval{k: pStr, s: name}
+}
+
+func atomText(s string, depth int) string {
+	if depth > 3 {
+		return s
+	}
+	for name, inner := range atomInner {
+		if strings.Contains(s, name) {
+			fn := name[:strings.Index(name, "{")]
+			s = strings.ReplaceAll(s, name, fn+"("+atomText(inner, depth+1)+")")
+		}
+	}
+	return s
 }
 
 // concatContent: tensor.Concat(axis, t, ts...) for tensors with known shape and content: shapes agree off the axis.
@@ -3652,4 +4137,327 @@ func mathOnTokens(f *ssa.Function, arg func(i int) pval, n int) (pval, bool) {
 func isFloatType(t types.Type) bool {
 	b, ok := t.Underlying().(*types.Basic)
 	return ok && b.Info()&types.IsFloat != 0
+}
+
+// deadForEveryCaller: the block of an unexported function cannot be entered whatever the library's callers pass: one
+// of the function's parameters receives only integer constants (directly, or through a parameter of an unexported
+// caller that does), and for each of those constants the tests of that parameter against constants lead past the
+// block (the fall-through after a switch over an unexported enumeration that names all its values). Closed world:
+// an unexported function has no callers outside the library, and every call found must be a static one.
+func (c *Ctx) deadForEveryCaller(fn *ssa.Function, b *ssa.BasicBlock) bool {
+	if fn == nil || fn.Parent() != nil || fn.Object() == nil || fn.Object().Exported() {
+		return false
+	}
+	for k, prm := range fn.Params {
+		set, ok := c.constArgSet(fn, k, 0)
+		if !ok || len(set) == 0 || len(set) > 16 {
+			continue
+		}
+		dead := true
+		for v := range set {
+			if reachableWith(fn, prm, v)[b] {
+				dead = false
+				break
+			}
+		}
+		if dead {
+			return true
+		}
+	}
+	return false
+}
+
+// constArgSet: the integer constants parameter k of the unexported function fn can receive.
+func (c *Ctx) constArgSet(fn *ssa.Function, k int, depth int) (map[int64]bool, bool) {
+	if depth > 3 || fn.Object() == nil || fn.Object().Exported() || fn.Parent() != nil {
+		return nil, false
+	}
+	node := c.cg.Nodes[fn]
+	if node == nil || len(node.In) == 0 {
+		return nil, false
+	}
+	// the function must not be used as a value anywhere in the library
+	for _, g := range c.libFns {
+		for _, blk := range g.Blocks {
+			for _, in := range blk.Instrs {
+				if _, isDbg := in.(*ssa.DebugRef); isDbg {
+					continue
+				}
+				for _, op := range in.Operands(nil) {
+					if *op == ssa.Value(fn) {
+						if cl, isCall := in.(ssa.CallInstruction); !isCall || cl.Common().Value != ssa.Value(fn) {
+							return nil, false
+						}
+					}
+				}
+				if mc, isMC := in.(*ssa.MakeClosure); isMC && mc.Fn == ssa.Value(fn) {
+					return nil, false
+				}
+			}
+		}
+	}
+	out := map[int64]bool{}
+	for _, e := range node.In {
+		if e.Caller != nil && e.Caller.Func != nil && e.Caller.Func.Synthetic != "" {
+			// the pointer-receiver wrapper of a value method and the like: harmless as long as nothing calls it
+			live := false
+			for _, e2 := range e.Caller.In {
+				if e2.Caller != nil && e2.Caller.Func != nil && e2.Caller.Func.Synthetic == "" {
+					live = true
+				}
+			}
+			if live {
+				return nil, false
+			}
+			continue
+		}
+		if e.Site == nil || e.Site.Common().IsInvoke() || e.Site.Common().StaticCallee() != fn {
+			return nil, false
+		}
+		if _, isGo := e.Site.(*ssa.Go); isGo {
+			return nil, false
+		}
+		args := e.Site.Common().Args
+		if k >= len(args) {
+			return nil, false
+		}
+		switch a := args[k].(type) {
+		case *ssa.Const:
+			if a.Value == nil || a.Value.Kind() != constant.Int {
+				return nil, false
+			}
+			n, exact := constant.Int64Val(a.Value)
+			if !exact {
+				return nil, false
+			}
+			out[n] = true
+		case *ssa.Parameter:
+			caller := a.Parent()
+			idx := -1
+			for i, q := range caller.Params {
+				if q == a {
+					idx = i
+				}
+			}
+			if idx < 0 || caller == fn {
+				return nil, false
+			}
+			sub, ok := c.constArgSet(caller, idx, depth+1)
+			if !ok {
+				return nil, false
+			}
+			for n := range sub {
+				out[n] = true
+			}
+		default:
+			return nil, false
+		}
+	}
+	return out, true
+}
+
+// reachableWith: the blocks of fn reachable from its entry when parameter prm holds the integer v; only tests of prm
+// against integer constants are decided, every other branch is taken both ways.
+func reachableWith(fn *ssa.Function, prm *ssa.Parameter, v int64) map[*ssa.BasicBlock]bool {
+	seen := map[*ssa.BasicBlock]bool{}
+	var visit func(b *ssa.BasicBlock)
+	visit = func(b *ssa.BasicBlock) {
+		if seen[b] {
+			return
+		}
+		seen[b] = true
+		if len(b.Instrs) > 0 {
+			if iff, ok := b.Instrs[len(b.Instrs)-1].(*ssa.If); ok {
+				if bo, ok := iff.Cond.(*ssa.BinOp); ok {
+					var k *ssa.Const
+					switch {
+					case bo.X == ssa.Value(prm):
+						k, _ = bo.Y.(*ssa.Const)
+					case bo.Y == ssa.Value(prm):
+						k, _ = bo.X.(*ssa.Const)
+					}
+					if k != nil && k.Value != nil && k.Value.Kind() == constant.Int && (bo.Op == token.EQL || bo.Op == token.NEQ) {
+						if n, exact := constant.Int64Val(k.Value); exact {
+							if (n == v) == (bo.Op == token.EQL) {
+								visit(b.Succs[0])
+							} else {
+								visit(b.Succs[1])
+							}
+							return
+						}
+					}
+				}
+			}
+		}
+		for _, s := range b.Succs {
+			visit(s)
+		}
+	}
+	if len(fn.Blocks) > 0 {
+		visit(fn.Blocks[0])
+	}
+	return seen
+}
+
+// siblingNilReturn: the block is entered when a non-error result of a call is nil and does nothing but return that
+// call's error result (f, err := get(..); if f == nil { return nil, err }).
+func (c *Ctx) siblingNilReturn(b *ssa.BasicBlock) bool {
+	pr := b.Preds[0]
+	if len(pr.Instrs) == 0 || len(b.Instrs) == 0 {
+		return false
+	}
+	for _, in := range b.Instrs[:len(b.Instrs)-1] {
+		if _, dbg := in.(*ssa.DebugRef); !dbg {
+			return false
+		}
+	}
+	iff, ok := pr.Instrs[len(pr.Instrs)-1].(*ssa.If)
+	ret, ok2 := b.Instrs[len(b.Instrs)-1].(*ssa.Return)
+	if !ok || !ok2 {
+		return false
+	}
+	bo, ok := iff.Cond.(*ssa.BinOp)
+	if !ok || !(bo.Op == token.EQL || bo.Op == token.NEQ) {
+		return false
+	}
+	// the block must sit on the "is nil" edge
+	if (bo.Op == token.EQL) != (pr.Succs[0] == b) {
+		return false
+	}
+	other := bo.X
+	if isNilConst(bo.X) {
+		other = bo.Y
+	} else if !isNilConst(bo.Y) {
+		return false
+	}
+	ex, ok := other.(*ssa.Extract)
+	if !ok {
+		return false
+	}
+	call, ok := ex.Tuple.(*ssa.Call)
+	if !ok || call.Common().IsInvoke() {
+		return false
+	}
+	sig, ok := call.Common().Value.Type().Underlying().(*types.Signature)
+	if !ok {
+		return false
+	}
+	ei := errResultIndex(sig)
+	if ei < 0 || ei == ex.Index {
+		return false
+	}
+	for _, r := range ret.Results {
+		if e2, ok := r.(*ssa.Extract); ok && e2.Tuple == ex.Tuple && e2.Index == ei {
+			return true
+		}
+	}
+	return false
+}
+
+// zeroExtentGuard: the block is entered only when an extent of a tensor's shape (t.Shape()[k]) is zero or negative.
+// Every property quantifies over extents of at least one, and no table cell has an empty tensor: such a block is
+// outside what the tables speak about, not a path they failed to enter.
+func (c *Ctx) zeroExtentGuard(b *ssa.BasicBlock) bool {
+	if len(b.Preds) != 1 {
+		return false
+	}
+	pr := b.Preds[0]
+	if len(pr.Instrs) == 0 {
+		return false
+	}
+	iff, ok := pr.Instrs[len(pr.Instrs)-1].(*ssa.If)
+	if !ok {
+		return false
+	}
+	bo, ok := iff.Cond.(*ssa.BinOp)
+	if !ok {
+		return false
+	}
+	onTrue := pr.Succs[0] == b
+	isExtent := func(v ssa.Value) bool {
+		v = stripConv(v)
+		ld, ok := v.(*ssa.UnOp)
+		if !ok || ld.Op != token.MUL {
+			return false
+		}
+		ia, ok := ld.X.(*ssa.IndexAddr)
+		if !ok {
+			return false
+		}
+		base := stripConv(ia.X)
+		cl, ok := base.(*ssa.Call)
+		if !ok {
+			return false
+		}
+		name, _ := tensorMethod(cl)
+		return name == "Shape"
+	}
+	k := func(v ssa.Value) (int64, bool) { return constInt(v) }
+	// v <op> const on the edge into b implies v <= 0
+	if isExtent(bo.X) {
+		if n, ok := k(bo.Y); ok {
+			switch {
+			case bo.Op == token.EQL && n == 0 && onTrue, bo.Op == token.NEQ && n == 0 && !onTrue,
+				bo.Op == token.LSS && n == 1 && onTrue, bo.Op == token.LEQ && n == 0 && onTrue,
+				bo.Op == token.GEQ && n == 1 && !onTrue, bo.Op == token.GTR && n == 0 && !onTrue:
+				return true
+			}
+		}
+	}
+	if isExtent(bo.Y) {
+		if n, ok := k(bo.X); ok {
+			switch {
+			case bo.Op == token.EQL && n == 0 && onTrue, bo.Op == token.NEQ && n == 0 && !onTrue,
+				bo.Op == token.GTR && n == 1 && onTrue, bo.Op == token.GEQ && n == 0 && onTrue,
+				bo.Op == token.LEQ && n == 1 && !onTrue, bo.Op == token.LSS && n == 0 && !onTrue:
+				return true
+			}
+		}
+	}
+	return false
+}
+
+// smallIntFloat: the exact string of a floating point constant that is an integer of small magnitude.
+func smallIntFloat(s string) bool {
+	r, ok := new(big.Rat).SetString(s)
+	return ok && r.IsInt() && r.Num().IsInt64() && r.Num().Int64() > -(1<<20) && r.Num().Int64() < 1<<20
+}
+
+// floatText: the exact text of a numeric constant (an untyped integer constant converted to a float type shows up as
+// an integer).
+func floatText(v pval) string {
+	if v.k == pInt {
+		return fmt.Sprint(v.i)
+	}
+	return v.s
+}
+
+// unsignedBelowZero: the block is entered only when a value of an unsigned type is below zero (an instance of a
+// generic kernel for an unsigned element type): no input enters it.
+func unsignedBelowZero(b *ssa.BasicBlock) bool {
+	if len(b.Preds) != 1 {
+		return false
+	}
+	pr := b.Preds[0]
+	if len(pr.Instrs) == 0 {
+		return false
+	}
+	iff, ok := pr.Instrs[len(pr.Instrs)-1].(*ssa.If)
+	if !ok {
+		return false
+	}
+	bo, ok := iff.Cond.(*ssa.BinOp)
+	if !ok {
+		return false
+	}
+	bt, ok := bo.X.Type().Underlying().(*types.Basic)
+	if !ok || bt.Info()&types.IsUnsigned == 0 {
+		return false
+	}
+	k, ok := bo.Y.(*ssa.Const)
+	if !ok || k.Value == nil || constant.Sign(k.Value) != 0 {
+		return false
+	}
+	onTrue := pr.Succs[0] == b
+	return (bo.Op == token.LSS && onTrue) || (bo.Op == token.GEQ && !onTrue)
 }
